@@ -1133,9 +1133,9 @@ def intrinsic(eng, st, fr, callee, base, args, R):
         s = deref(args[0])
         if isinstance(s, Slice): return R(V(s.len, 'usize'))
         if isinstance(s, Agg): return R(V(BitVecVal(len(s.f), 64), 'usize'))
-    if base.endswith('as Deref>::deref') or base.endswith('as DerefMut>::deref_mut') or base.endswith('as AsRef<[u8]>>::as_ref') or base.endswith('::as_slice') or base.endswith('::as_mut_slice'):
+    if base.endswith('as Deref>::deref') or base.endswith('as DerefMut>::deref_mut') or re.search(r'as AsRef<[^>]*>>::as_ref$', base) or base.endswith('::as_slice') or base.endswith('::as_mut_slice'):
         v = deref(args[0])
-        if isinstance(v, (Slice, Str)): return R(v)
+        if isinstance(v, (Slice, Str, Opaque)): return R(v)
     m = re.match(r'std::ptr::(?:const|mut)_ptr::<impl \*(?:const|mut) (\w+)>::(\w+)$', base)
     if m:
         ty, fn = m.group(1), m.group(2); p = args[0]
